@@ -29,7 +29,8 @@ func init() {
 		ID:    "C10",
 		Level: "exploration",
 		Rule: "programs that print, enumerate, compare and serialise maps (>=8 keys, mixed spellings), closures, errors embedding values and function names, nested containers, schema validators, json dumps, gensyms, help output, plus generated core programs; each is run once in a fresh runtime, then in 4 concurrent fresh runtimes after unrelated prior activity (race-detector build), " +
-			"and (driver phase) a fixed sub-list is re-run in 4 separate processes with different GOMAXPROCS, GOGC and prior activity; all transcripts must be byte-identical. distinct_nontrivial counts distinct (template-or-feature, outcome class) signatures with >= 5 steps",
+			"and (driver phase) a fixed sub-list is re-run in 4 separate processes with different GOMAXPROCS, GOGC and prior activity; " +
+			"and (driver phase, c10_earlier.go) programs calling every library package with invalid and valid inputs passed as strings (fresh per case), plus programs of the main list, run in 7 processes: alone, alone in reverse order, and after / behind / beside decoys derived from the program's own text (wrapped in a function under a swallowing handler, shifted, loaded under another stream name) that make the same library calls first from other call sites in another runtime; all transcripts must be byte-identical. distinct_nontrivial counts distinct (template-or-feature, outcome class) signatures with >= 5 steps",
 		Assumptions: []string{
 			"time:utc-now, time:time-elapsed, time:sleep and file loading are excluded by construction, as the property allows",
 			"a map-order leak is probabilistic per run: programs use >=8 keys and 5+4 comparisons per program",
